@@ -509,7 +509,92 @@ def soak(rng, tier, info):
 _threaded_histories = extra_checks
 
 
+def api_sweep(rng, tier, info):
+    """"whatever happened before": EVERY public method of a wallet, of its BIP85 object and of its root node is called
+    with simple and degenerate arguments (root path, empty path / interval / byte string, zero, None, ...); whatever
+    they answer, the root key and a set of reference requests must afterwards be what they were before"""
+    import contextlib
+    import io
+    pool = [(), ("m",), ("M",), ("m/",), ("m/0",), ("M/0",), ("m/0'",), ([],), ([0],), ((0, 0),), ((0, 1),), (0,), (1,),
+            (b"",), (bytes(32),), ("",), (None,), (True,), (0, 0), ("m", "m")]
+    skip = {"pprint", "export_wallet", "export_wasabi", "export_to_file", "new_wallet", "from_entropy_bits"}
+    n_calls = 0
+    e = bytes(rng.getrandbits(8) for _ in range(16)).hex()
+    full = impl.make_wallet("ent:%s:-:-:%s" % (sx(e), rng.choice("01")))
+    xpub = full.master.derive_path([84 + H, H, H]).extended_public_key()
+    for label, mk in (("private wallet", lambda: impl.make_wallet("ent:%s:-:-:0" % sx(e))),
+                      ("watch-only wallet", lambda: impl.make_wallet("xkey:" + sx(xpub)))):
+        w = mk()
+
+        def snap():
+            out = [impl.nodeS(w.master), str(w.testnet), str(w.watch_only)]
+            root = "M" if w.watch_only else "m"
+            out.append(impl.nodeS(type(w)(master=w.master, testnet=w.testnet).by_path(root + "/0/1")))
+            out.append(w.master.extended_public_key())
+            if not w.watch_only:
+                out.append(w.master.extended_private_key())
+                out.append(w.bip85.wif(0))
+                out.append(w.bip85.entropy("m/83696968'/0'/0'").hex())
+            return out
+        before = snap()
+        for oname, obj in (("wallet", w), ("wallet.bip85", w.bip85), ("wallet.master", w.master)):
+            if obj is None:
+                continue
+            for name in sorted(dir(obj)):
+                if name.startswith("_") or name in skip:
+                    continue
+                try:
+                    attr = getattr(obj, name)
+                except Exception:
+                    continue
+                if not callable(attr):
+                    continue
+                used = pool if tier == "thorough" else pool[:14]
+                for args in used:
+                    n_calls += 1
+                    try:
+                        with contextlib.redirect_stdout(io.StringIO()):
+                            r = attr(*args)
+                            if hasattr(r, "__next__"):
+                                next(r)
+                    except (KeyboardInterrupt, SystemExit):
+                        raise
+                    except BaseException:
+                        pass
+                try:
+                    after = snap()
+                except Exception as ex:
+                    after = ["snapshot failed: %r" % ex]
+                if after != before:
+                    diff = next((i for i, (a, b) in enumerate(zip(before, after)) if a != b), len(before))
+                    # which argument tuple did it?  replay on a fresh wallet, one call at a time
+                    culprit = None
+                    for args in used:
+                        w2 = mk()
+                        o2 = {"wallet": w2, "wallet.bip85": w2.bip85, "wallet.master": w2.master}[oname]
+                        try:
+                            with contextlib.redirect_stdout(io.StringIO()):
+                                getattr(o2, name)(*args)
+                        except BaseException:
+                            pass
+                        try:
+                            ok2 = impl.nodeS(w2.master) == before[0]
+                        except Exception:
+                            ok2 = False
+                        if not ok2:
+                            culprit = args
+                            break
+                    yield ("# %s: after the call(s) %s.%s%s" % (label, oname, name, repr(culprit) if culprit is not None else
+                                                                 " with each of %r" % (used,)),
+                           "a request changed what later requests return (item %d of the reference set: %s -> %s)" % (
+                               diff, str(before[diff])[:50] if diff < len(before) else "-",
+                               str(after[diff])[:60] if diff < len(after) else "-"))
+                    return
+    info["api_sweep_calls"] = n_calls
+
+
 def extra_checks(rng, tier, g, info):       # noqa: F811
+    yield from api_sweep(rng, tier, info)
     yield from _threaded_histories(rng, tier, g, info)
     yield from contended_nodes(rng, tier, info)
     yield from explore_preemptions(rng, tier, info)
